@@ -69,6 +69,10 @@ EPS = float(np.finfo(np.float64).eps)
 C_REP = 1e3      # representation relations: C_REP * eps * scale
 X_TOL = 1e-9     # cross-hbar equality of dimensionless quantities (relative to max(1, |value|))
 PATHS = ("xpxp", "xxpp", "instr", "mixed")
+# Symptom predicate "purity(hbar) * (hbar/2)^d does not depend on hbar": get_purity = 2^d / sqrt(det sigma) without the
+# 1/hbar^d. Found by this check on the original tree (vacuum purity (2/hbar)^d) and fixed in the repository by
+# "fix: GaussianState.get_purity takes hbar into account"; the key stays so that a regression is named the same way, and
+# any other hbar dependence of the purity gets the key purity-depends-on-hbar.
 PURITY_KNOWN = "gaussian-purity-ignores-hbar"
 # The matrices are at most 8x8: thread pools (numba prange in the hafnian, OpenMP in the torontonian, BLAS) only add
 # fork/join latency - 60 ms per hafnian call on a loaded machine instead of 0.1 ms. Thread counts are not a knob of C14.
